@@ -86,6 +86,7 @@ class Cx:
         self.inputs.append(name)
         if self.sym:
             from symnum import core
+            core.ENGINE.input_hints[name] = (lo, hi)
             return core.real(name)
         return self._get(name, lo, hi)
 
@@ -93,6 +94,8 @@ class Cx:
         if self.sym:
             from symnum import core
             self.inputs += [name + ".re", name + ".im"]
+            core.ENGINE.input_hints[name + ".re"] = (-2.0, 2.0)
+            core.ENGINE.input_hints[name + ".im"] = (-2.0, 2.0)
             return core.cplx(name)
         return complex(self._get(name + ".re"), self._get(name + ".im"))
 
